@@ -89,12 +89,12 @@ theorem orth_inv_comp {P₁ P₂ : Placement K} (h₁ : Orth P₁.R.transpose) (
 /-- Two collapses of the same template with the same instance parameters differ only by the
 relative placement `P₁⁻¹ ≫ P₂`. -/
 theorem collapse_two_placements (T : Template K) (I : Inst K) (P₁ P₂ : Placement K)
-    (h₁ : Orth P₁.R) (h₁' : Orth P₁.R.transpose) (h₂ : Orth P₂.R) :
+    (h₁ : Orth P₁.R) (h₂ : Orth P₂.R) :
     collapse T (I.at P₂) = mapGeometry (P₁.inv.comp P₂) (collapse T (I.at P₁)) := by
   have e1 := collapse_factor T (I.at P₁)
   have e2 := collapse_factor T (I.at P₂)
   have hid : (I.at P₁).at Placement.id = (I.at P₂).at Placement.id := rfl
-  rw [e1, mapGeometry_comp (orth_inv_comp h₁' h₂), e2, ← hid]
+  rw [e1, mapGeometry_comp (orth_inv_comp h₁.transpose h₂), e2, ← hid]
   show mapGeometry P₂ _ = mapGeometry (P₁.comp (P₁.inv.comp P₂)) _
   rw [Placement.comp_inv_comp P₁ P₂ h₁]
 
